@@ -22,6 +22,7 @@ VARIABLES
     reqp,       \* bytes of initial payload delivered inside the server protocol's request
     cs, cclosed,\* client: bytes sent after the handshake / write side closed
     ts, tclosed,\* target: bytes sent / write side closed
+    tabort,     \* the target reset the connection (RST): nothing more can be delivered to it
     buf,        \* bytes the relay read from the client while waiting for the initial payload
     waited,     \* the relay waited (and therefore signalled success first)
     dialp,      \* bytes handed to DialStream as initial payload
@@ -33,7 +34,7 @@ VARIABLES
     stats,      \* <<uplink, downlink>> handed to the collector, or <<-1,-1>>
     act
 
-sv == <<phase, rejected, reqp, cs, cclosed, ts, tclosed, buf, waited, dialp, tg, cg, l2r, r2l, l2rdone, r2ldone, tshut, cshut, reply, stats>>
+sv == <<phase, rejected, reqp, cs, cclosed, ts, tclosed, tabort, buf, waited, dialp, tg, cg, l2r, r2l, l2rdone, r2ldone, tshut, cshut, reply, stats>>
 vars == <<sv, act>>
 
 WaitDecision == reqp = 0 /\ ClientNative /\ ListenerWait /\ ~ServerNative
@@ -41,33 +42,36 @@ WaitDecision == reqp = 0 /\ ClientNative /\ ListenerWait /\ ~ServerNative
 Init ==
     /\ phase = "accepted" /\ rejected \in BOOLEAN
     /\ reqp \in (IF ServerNative THEN 0..1 ELSE {0})
-    /\ cs = 0 /\ cclosed = FALSE /\ ts = 0 /\ tclosed = FALSE
+    /\ cs = 0 /\ cclosed = FALSE /\ ts = 0 /\ tclosed = FALSE /\ tabort = FALSE
     /\ buf = 0 /\ waited = FALSE /\ dialp = 0 /\ tg = 0 /\ cg = 0 /\ l2r = 0 /\ r2l = 0
     /\ l2rdone = FALSE /\ r2ldone = FALSE /\ tshut = FALSE /\ cshut = FALSE
     /\ reply = "none" /\ stats = <<-1, -1>>
     /\ act = [n |-> "Init"]
 
 \* the client may write to the relay as soon as its handshake is out (data "sent after" the handshake)
+\* (environment assumption: once the target has reset the connection the client sends nothing more - what a relay writes
+\* towards a dead connection or a next hop that has not noticed yet may be counted as sent although nobody receives it,
+\* and the property's "bytes actually delivered" has no exact meaning for those bytes)
 ClientSend(k) ==
-    /\ ~cclosed /\ cs + k <= MaxBytes /\ phase # "closed"
+    /\ ~cclosed /\ ~tabort /\ cs + k <= MaxBytes /\ phase # "closed"
     /\ cs' = cs + k
-    /\ UNCHANGED <<phase, rejected, reqp, cclosed, ts, tclosed, buf, waited, dialp, tg, cg, l2r, r2l, l2rdone, r2ldone, tshut, cshut, reply, stats>>
+    /\ UNCHANGED <<phase, rejected, reqp, cclosed, ts, tclosed, tabort, buf, waited, dialp, tg, cg, l2r, r2l, l2rdone, r2ldone, tshut, cshut, reply, stats>>
     /\ act' = [n |-> "ClientSend", k |-> k]
 ClientClose ==
     /\ ~cclosed /\ phase # "closed"
     /\ cclosed' = TRUE
-    /\ UNCHANGED <<phase, rejected, reqp, cs, ts, tclosed, buf, waited, dialp, tg, cg, l2r, r2l, l2rdone, r2ldone, tshut, cshut, reply, stats>>
+    /\ UNCHANGED <<phase, rejected, reqp, cs, ts, tclosed, tabort, buf, waited, dialp, tg, cg, l2r, r2l, l2rdone, r2ldone, tshut, cshut, reply, stats>>
     /\ act' = [n |-> "ClientClose"]
 \* the target may write as soon as it is connected (far side first)
 TargetSend(k) ==
     /\ phase = "copy" /\ ~tclosed /\ ts + k <= MaxBytes
     /\ ts' = ts + k
-    /\ UNCHANGED <<phase, rejected, reqp, cs, cclosed, tclosed, buf, waited, dialp, tg, cg, l2r, r2l, l2rdone, r2ldone, tshut, cshut, reply, stats>>
+    /\ UNCHANGED <<phase, rejected, reqp, cs, cclosed, tclosed, tabort, buf, waited, dialp, tg, cg, l2r, r2l, l2rdone, r2ldone, tshut, cshut, reply, stats>>
     /\ act' = [n |-> "TargetSend", k |-> k]
 TargetClose ==
     /\ phase = "copy" /\ ~tclosed
     /\ tclosed' = TRUE
-    /\ UNCHANGED <<phase, rejected, reqp, cs, cclosed, ts, buf, waited, dialp, tg, cg, l2r, r2l, l2rdone, r2ldone, tshut, cshut, reply, stats>>
+    /\ UNCHANGED <<phase, rejected, reqp, cs, cclosed, ts, tabort, buf, waited, dialp, tg, cg, l2r, r2l, l2rdone, r2ldone, tshut, cshut, reply, stats>>
     /\ act' = [n |-> "TargetClose"]
 
 \* HandleStream succeeded; router.GetTCPClient
@@ -78,7 +82,7 @@ Route ==
               /\ act' = [n |-> "Route", out |-> "rejected"]
          ELSE /\ phase' = "routed" /\ reply' = reply
               /\ act' = [n |-> "Route", out |-> "ok"]
-    /\ UNCHANGED <<rejected, reqp, cs, cclosed, ts, tclosed, buf, waited, dialp, tg, cg, l2r, r2l, l2rdone, r2ldone, tshut, cshut, stats>>
+    /\ UNCHANGED <<rejected, reqp, cs, cclosed, ts, tclosed, tabort, buf, waited, dialp, tg, cg, l2r, r2l, l2rdone, r2ldone, tshut, cshut, stats>>
 
 \* the wait decision; when waiting, success is signalled first (req.Proceed())
 Decide ==
@@ -86,7 +90,7 @@ Decide ==
     /\ IF WaitDecision
          THEN phase' = "waiting" /\ waited' = TRUE /\ reply' = "ok"
          ELSE phase' = "dial" /\ waited' = FALSE /\ reply' = reply
-    /\ UNCHANGED <<rejected, reqp, cs, cclosed, ts, tclosed, buf, dialp, tg, cg, l2r, r2l, l2rdone, r2ldone, tshut, cshut, stats>>
+    /\ UNCHANGED <<rejected, reqp, cs, cclosed, ts, tclosed, tabort, buf, dialp, tg, cg, l2r, r2l, l2rdone, r2ldone, tshut, cshut, stats>>
     /\ act' = [n |-> "Decide", out |-> IF WaitDecision THEN "wait" ELSE "nowait"]
 
 \* clientConn.Read(req.Payload) under the initial payload wait deadline: some of what the client has
@@ -97,7 +101,7 @@ ReadInitial ==
          /\ buf' = k
          /\ act' = [n |-> "ReadInitial", k |-> k, eof |-> (cclosed /\ k = cs)]
     /\ phase' = "dial"
-    /\ UNCHANGED <<rejected, reqp, cs, cclosed, ts, tclosed, waited, dialp, tg, cg, l2r, r2l, l2rdone, r2ldone, tshut, cshut, reply, stats>>
+    /\ UNCHANGED <<rejected, reqp, cs, cclosed, ts, tclosed, tabort, waited, dialp, tg, cg, l2r, r2l, l2rdone, r2ldone, tshut, cshut, reply, stats>>
 
 \* dialer.DialStream(ctx, req.Addr, req.Payload)
 Dial(code) ==
@@ -108,46 +112,47 @@ Dial(code) ==
               /\ reply' = "ok"                                 \* Proceed() now, unless done before waiting
          ELSE /\ phase' = "closed" /\ tg' = tg
               /\ reply' = IF waited THEN reply ELSE code       \* Abort(code) only if success was not signalled
-    /\ UNCHANGED <<rejected, reqp, cs, cclosed, ts, tclosed, buf, waited, cg, l2r, r2l, l2rdone, r2ldone, tshut, cshut, stats>>
+    /\ UNCHANGED <<rejected, reqp, cs, cclosed, ts, tclosed, tabort, buf, waited, cg, l2r, r2l, l2rdone, r2ldone, tshut, cshut, stats>>
     /\ act' = [n |-> "Dial", code |-> code, payload |-> reqp + buf]
 
 \* io.Copy(right, left): moves the client's bytes beyond the initial payload
 CopyL2R(k) ==
-    /\ phase = "copy" /\ ~l2rdone /\ k > 0 /\ buf + l2r + k <= cs
+    /\ phase = "copy" /\ ~l2rdone /\ ~tabort /\ k > 0 /\ buf + l2r + k <= cs
     /\ l2r' = l2r + k /\ tg' = tg + k
-    /\ UNCHANGED <<phase, rejected, reqp, cs, cclosed, ts, tclosed, buf, waited, dialp, cg, r2l, l2rdone, r2ldone, tshut, cshut, reply, stats>>
+    /\ UNCHANGED <<phase, rejected, reqp, cs, cclosed, ts, tclosed, tabort, buf, waited, dialp, cg, r2l, l2rdone, r2ldone, tshut, cshut, reply, stats>>
     /\ act' = [n |-> "CopyL2R", k |-> k]
 \* EOF from the client after everything was moved: right.CloseWrite()
 L2REof ==
     /\ phase = "copy" /\ ~l2rdone /\ cclosed /\ buf + l2r = cs
     /\ l2rdone' = TRUE /\ tshut' = TRUE
-    /\ UNCHANGED <<phase, rejected, reqp, cs, cclosed, ts, tclosed, buf, waited, dialp, tg, cg, l2r, r2l, r2ldone, cshut, reply, stats>>
+    /\ UNCHANGED <<phase, rejected, reqp, cs, cclosed, ts, tclosed, tabort, buf, waited, dialp, tg, cg, l2r, r2l, r2ldone, cshut, reply, stats>>
     /\ act' = [n |-> "L2REof"]
 CopyR2L(k) ==
     /\ phase = "copy" /\ ~r2ldone /\ k > 0 /\ r2l + k <= ts
     /\ r2l' = r2l + k /\ cg' = cg + k
-    /\ UNCHANGED <<phase, rejected, reqp, cs, cclosed, ts, tclosed, buf, waited, dialp, tg, l2r, l2rdone, r2ldone, tshut, cshut, reply, stats>>
+    /\ UNCHANGED <<phase, rejected, reqp, cs, cclosed, ts, tclosed, tabort, buf, waited, dialp, tg, l2r, l2rdone, r2ldone, tshut, cshut, reply, stats>>
     /\ act' = [n |-> "CopyR2L", k |-> k]
 R2LEof ==
     /\ phase = "copy" /\ ~r2ldone /\ tclosed /\ r2l = ts
     /\ r2ldone' = TRUE /\ cshut' = TRUE
-    /\ UNCHANGED <<phase, rejected, reqp, cs, cclosed, ts, tclosed, buf, waited, dialp, tg, cg, l2r, r2l, l2rdone, tshut, reply, stats>>
+    /\ UNCHANGED <<phase, rejected, reqp, cs, cclosed, ts, tclosed, tabort, buf, waited, dialp, tg, cg, l2r, r2l, l2rdone, tshut, reply, stats>>
     /\ act' = [n |-> "R2LEof"]
 
-\* the target resets the connection (RST) after everything it sent was relayed and the client has finished: the
-\* target-to-client copy ends with an error; the session is still over and still has to be accounted
+\* the target resets the connection (RST) after everything it sent was relayed, whether or not the client has finished:
+\* the target-to-client copy ends with an error (the client is told end-of-stream), nothing more can be delivered to the
+\* target, and the session still has to be accounted with what was delivered until then
 TargetAbort ==
-    /\ phase = "copy" /\ l2rdone /\ ~r2ldone /\ ~tclosed /\ r2l = ts
-    /\ tclosed' = TRUE /\ r2ldone' = TRUE /\ cshut' = TRUE
+    /\ phase = "copy" /\ ~r2ldone /\ ~tclosed /\ r2l = ts
+    /\ (l2rdone \/ buf + l2r = cs)     \* (the relay moves what it has at once: nothing of the client's is still waiting)
+    /\ tclosed' = TRUE /\ tabort' = TRUE /\ r2ldone' = TRUE /\ cshut' = TRUE
     /\ UNCHANGED <<phase, rejected, reqp, cs, cclosed, ts, buf, waited, dialp, tg, cg, l2r, r2l, l2rdone, tshut, reply, stats>>
     /\ act' = [n |-> "TargetAbort"]
-
 \* both loops ended: CollectTCPSession(username, nr2l, nl2r + len(payload)); connections closed
 Collect ==
     /\ phase = "copy" /\ l2rdone /\ r2ldone
     /\ stats' = <<l2r + dialp, r2l>>
     /\ phase' = "closed"
-    /\ UNCHANGED <<rejected, reqp, cs, cclosed, ts, tclosed, buf, waited, dialp, tg, cg, l2r, r2l, l2rdone, r2ldone, tshut, cshut, reply>>
+    /\ UNCHANGED <<rejected, reqp, cs, cclosed, ts, tclosed, tabort, buf, waited, dialp, tg, cg, l2r, r2l, l2rdone, r2ldone, tshut, cshut, reply>>
     /\ act' = [n |-> "Collect", up |-> l2r + dialp, down |-> r2l]
 
 Next ==
